@@ -93,38 +93,44 @@ func sliceName(v ssa.Value) string {
 	return "value"
 }
 
-// srcTextAt: the source text of the indexed / asserted operand whose `[` or `.(` is at pos.
-func srcTextAt(c *Ctx, f *ssa.Function, pos token.Pos) string {
-	if !pos.IsValid() || f.Pkg == nil {
-		return ""
+// Source-text index: the text of the operand / index / whole slice expression keyed by the
+// position of its `[` or `.(` (built once per run).
+type srcTexts struct{ operand, index, slice map[token.Pos]string }
+
+var srcIndexCache *srcTexts
+
+func srcIndex(c *Ctx) *srcTexts {
+	if srcIndexCache != nil {
+		return srcIndexCache
 	}
+	t := &srcTexts{map[token.Pos]string{}, map[token.Pos]string{}, map[token.Pos]string{}}
 	for _, p := range c.L.Pkgs {
-		if p.Types != f.Pkg.Pkg {
+		if !strings.HasPrefix(p.PkgPath, modPath) {
 			continue
 		}
 		for _, file := range p.Syntax {
-			if pos < file.Pos() || pos >= file.End() {
+			if c.L.isGeneratedFile(file) {
 				continue
 			}
-			out := ""
 			ast.Inspect(file, func(n ast.Node) bool {
 				switch x := n.(type) {
 				case *ast.IndexExpr:
-					if x.Lbrack == pos {
-						out = types.ExprString(x.X)
-					}
+					t.operand[x.Lbrack] = types.ExprString(x.X)
+					t.index[x.Lbrack] = types.ExprString(x.Index)
 				case *ast.TypeAssertExpr:
-					if x.Lparen == pos {
-						out = types.ExprString(x.X)
-					}
+					t.operand[x.Lparen] = types.ExprString(x.X)
+				case *ast.SliceExpr:
+					t.slice[x.Lbrack] = types.ExprString(x)
 				}
-				return out == ""
+				return true
 			})
-			return out
 		}
 	}
-	return ""
+	srcIndexCache = t
+	return t
 }
+
+func srcTextAt(c *Ctx, f *ssa.Function, pos token.Pos) string { return srcIndex(c).operand[pos] }
 
 func parentOf(v ssa.Value) *ssa.Function {
 	if in, ok := v.(ssa.Instruction); ok {
@@ -753,28 +759,8 @@ func ruleV13(c *Ctx) {
 }
 
 func srcIndexAt(c *Ctx, f *ssa.Function, pos token.Pos) string {
-	if !pos.IsValid() || f.Pkg == nil {
-		return "i"
-	}
-	for _, p := range c.L.Pkgs {
-		if p.Types != f.Pkg.Pkg {
-			continue
-		}
-		for _, file := range p.Syntax {
-			if pos < file.Pos() || pos >= file.End() {
-				continue
-			}
-			out := ""
-			ast.Inspect(file, func(n ast.Node) bool {
-				if x, ok := n.(*ast.IndexExpr); ok && x.Lbrack == pos {
-					out = types.ExprString(x.Index)
-				}
-				return out == ""
-			})
-			if out != "" {
-				return out
-			}
-		}
+	if s, ok := srcIndex(c).index[pos]; ok {
+		return s
 	}
 	return "range"
 }
@@ -1102,26 +1088,8 @@ func ruleL13(c *Ctx) {
 }
 
 func srcSliceAt(c *Ctx, f *ssa.Function, pos token.Pos) string {
-	if !pos.IsValid() || f.Pkg == nil {
-		return "?"
-	}
-	for _, p := range c.L.Pkgs {
-		if p.Types != f.Pkg.Pkg {
-			continue
-		}
-		for _, file := range p.Syntax {
-			if pos < file.Pos() || pos >= file.End() {
-				continue
-			}
-			out := ""
-			ast.Inspect(file, func(n ast.Node) bool {
-				if x, ok := n.(*ast.SliceExpr); ok && x.Lbrack == pos {
-					out = types.ExprString(x)
-				}
-				return out == ""
-			})
-			return out
-		}
+	if s, ok := srcIndex(c).slice[pos]; ok {
+		return s
 	}
 	return "?"
 }
